@@ -432,6 +432,12 @@ int main(int argc, char *argv[])
 
    // Build options map
    register_options();
+#ifdef UNCRUSTIFY_VERIF
+   if (verif::listops_requested())
+   {
+      return(verif::listops_run());
+   }
+#endif
 
    // If ran without options show the usage info and exit */
    if (argc == 1)
